@@ -1,12 +1,15 @@
 # C10 - identity constraints: value-space equality of field tuples
-CLAIMS = {'tuple': 'ICValueHasher::isDuplicateOf / equals / getHashVal + FieldValueMap with stub validators over a symbolic derivation forest: equality in the value space of the nearest common ancestor; hash consistency'}
+CLAIMS = {'cachemerge': 'ValueStoreCache::endElement as a path gate (containers cut): tuples of the ending scope are registered in / appended INTO the enclosing scope, popped map deleted once',
+ 'tuple': 'ICValueHasher::isDuplicateOf / equals / getHashVal + FieldValueMap with stub validators over a symbolic derivation forest: equality in the value space of the nearest common ancestor; hash consistency'}
 ASSUMPTIONS = ['datatype validators are stubs (value = first character, optionally case-folded; canonical form value-determined)', 'DatatypeValidator base ctor/dtor cut', 'fixed-block memory manager']
 HARNESSES = [
  dict(name='tuple', entry='harness_tuple', srcs=['C10/tuple.cpp', 'C10/dvstub.cpp'],
       tus=['validators/schema/identity/ValueStore.cpp', 'validators/schema/identity/FieldValueMap.cpp', 'util/XMLString.cpp', 'util/XMemory.cpp'],
       unwind=6, timeout={'quick': 900, 'thorough': 1700}),
+ dict(name='cachemerge', entry='harness_cachemerge', srcs=['C10/cachemerge.cpp', 'C10/cachestubs.cpp'], tus=['validators/schema/identity/ValueStoreCache.cpp'],
+      cuts_everywhere=['_ZN11xercesc_4_010RefStackOfINS_14RefHashTableOfINS_10ValueStoreENS_9PtrHasherEEEE5emptyEv', '_ZN11xercesc_4_010RefStackOfINS_14RefHashTableOfINS_10ValueStoreENS_9PtrHasherEEEE3popEv', '_ZN11xercesc_4_024RefHashTableOfEnumeratorINS_10ValueStoreENS_9PtrHasherEEC2EPNS_14RefHashTableOfIS1_S2_EEbPNS_13MemoryManagerE', '_ZN11xercesc_4_024RefHashTableOfEnumeratorINS_10ValueStoreENS_9PtrHasherEED2Ev', '_ZNK11xercesc_4_024RefHashTableOfEnumeratorINS_10ValueStoreENS_9PtrHasherEE15hasMoreElementsEv', '_ZN11xercesc_4_024RefHashTableOfEnumeratorINS_10ValueStoreENS_9PtrHasherEE11nextElementEv', '_ZN11xercesc_4_014RefHashTableOfINS_10ValueStoreENS_9PtrHasherEE3getEPKv', '_ZN11xercesc_4_014RefHashTableOfINS_10ValueStoreENS_9PtrHasherEE3putEPvPS1_', '_ZN11xercesc_4_014RefHashTableOfINS_10ValueStoreENS_9PtrHasherEED2Ev'], unwind=6, timeout=600),
 ]
 LEVEL_TEXT = ('Bounded model checking of the real tuple comparison/hash code of identity constraints with the type derivation forest and the values symbolic: for ALL pairs of tuples within the bound, equality is decided in the '
               'value space of the nearest common ancestor type and equal tuples hash alike.')
-LEVEL_NOTE = ('NOT claimed: XPath selector/field matching, scoping of key tables across nested elements (ValueStoreCache), duplicate/keyref reporting over whole instances, real datatype validators in the comparison. '
+LEVEL_NOTE = ('NOT claimed: XPath selector/field matching, scoping of key tables across nested elements beyond the merge step of ValueStoreCache::endElement (harness cachemerge), duplicate/keyref reporting over whole instances, real datatype validators in the comparison. '
               'Bounds: 3 validators, tuples of <= 2 fields, values of one code unit.')
